@@ -602,6 +602,28 @@ def _event(rep, prog):
     loops = any(n.id in F.reach(s) for n in adds for s in n.succ)
     ok2 = len(adds) == 2 and not loops and len({ir.fmt(n.stmt[2][0]) for n in adds}) == 1
     rep.add('EVENT', 'two-particles', where(fn, adds[0].line if adds else None), 'add_particle is called exactly twice on the event, outside any loop', ok2)
+    # the event holds exactly those two particles: it is emptied before the first append
+    clearing = set()
+    for (qn, _), f in prog.functions.items():
+        if f.get('cls') == 'bxdecay0::event' and f.get('body'):
+            FE = cppflow.Flow(f)
+            cl = [n for n in FE.nodes(kind='call') if n.stmt[1] == 'std::vector::clear' and
+                  '_particles_' in ir.fmt(n.stmt[2][0])]
+            rets = [n for n in FE.g.nodes if n.kind == 'return']
+            if cl and all(any(FE.dominates(c, r) for c in cl) for r in rets):
+                clearing.add('event::' + f['name'])
+    if not clearing:
+        raise AnalysisBroken('EVENT: no method of bxdecay0::event empties the particle list on every path')
+    if adds:
+        evobj = ir.fmt(adds[0].stmt[2][0])
+        emptied = [n for n in F.nodes(kind='call') if n.stmt[1] in clearing and n.stmt[2] and ir.fmt(n.stmt[2][0]) == evobj
+                   and F.dominates(n, adds[0])]
+        rep.add('EVENT', 'starts-empty', where(fn, emptied[0].line if emptied else adds[0].line),
+                'the event is emptied (%s) before the first add_particle, so it holds exactly the two electrons' %
+                ', '.join(sorted(clearing)), bool(emptied),
+                None if emptied else ['no call of %s on `%s` dominates the first add_particle: an event object that is reused '
+                                      'keeps its earlier particles (2k particles after the k-th shot)'
+                                      % (' / '.join(sorted(clearing)), evobj)])
     okc = len(codes) == 1 and astu.src(astu.strip_casts(codes[0]['args'][0])) == 'ELECTRON' and len(coden) == 1 and \
         all(F.dominates(coden[0], a) for a in adds)
     okt = len(timen) == 1 and timen[0].stmt[2][1][0] == 'num' and timen[0].stmt[2][1][1] == 0 and all(F.dominates(timen[0], a) for a in adds)
